@@ -705,9 +705,9 @@ def api_oracle(rng, tier, stats):
                 why = offered_fits(d, name, blk)
                 if why:
                     fails.append(dict(kind="offered_invalid", accelerator=name, op=d, block=blk, why=why))
-            # every offered block is one the model's try_block_config accepts (scaled = has_scaling)
+            # every offered block is one the model's try_block_config accepts (scaled = what the command stream generator will use)
             for blk in blks[:16]:
-                mcases.append(op_model_args(d, acc_index[a], blk, d["quant"] != "none"))
+                mcases.append(op_model_args(d, acc_index[a], blk, d["quant"] == "scale"))  # the value the generator uses (all_fms_have_quant)
                 mmeta.append((d, name, blk))
             # offered => accepted, and the emitted registers
             pick = blks if len(blks) <= per_op else ([blks[0], blks[-1]] + rng.sample(blks[1:-1], per_op - 2))
